@@ -523,6 +523,7 @@ def prodstring(r, constants):
     if num and den: return "(%s)/(%s)" % (num, den)
     if num: return num
     if den: return "1/(%s)" % den
+    return '1'
 
 def quadraticstring(ctx,t,a,b,c):
     if c < 0:
